@@ -9,6 +9,7 @@ correspondence).  `PState.kinds` is the token-kind sequence a parser state is lo
 All proofs are in `Lemmas/C04Lemmas.lean`; this file only states the property theorems.
 -/
 import TgModel.Lemmas.C04Lemmas
+import TgModel.Lemmas.C04Findings
 
 namespace Tg.C04
 open Grammar
@@ -84,6 +85,18 @@ theorem type_converse_partial (fuel : Nat) (s s' : PState) (input : List Char) (
 `!getdagop` as the operator, like llvm-tblgen.  Replayed on the implementation by the check. -/
 theorem full_forward_false : ¬ FullForward :=
   C04L.full_forward_false
+
+/-- the restrict-type deviations of DESIGN.md §12.5, each with a machine-checked witness: the text's token
+kinds are a documented sentence (`Doc.Sentence`, derivation in the regenerated grammar) and the parser
+model reports a syntax error.  Witnesses: `def d { dag a = (1 2); }` (dag operator),
+`foreach i = 0b01...0b11 in def x;` (foreach init look-ahead), `def {0, 1};` and `def x{1};`
+(def name vs body brace), `def d : A<x = 2, 3>;` (positional after named), `defvar a = b[c 0b1];`
+(second integer of a slice element).  The check replays each on the implementation. -/
+theorem documented_sentences_rejected :
+    C04L.ForwardFailure C04L.dagWitness ∧ C04L.ForwardFailure C04L.ffForeachBin ∧
+    C04L.ForwardFailure C04L.ffDefBits ∧ C04L.ForwardFailure C04L.ffDefRange ∧
+    C04L.ForwardFailure C04L.ffArgOrder ∧ C04L.ForwardFailure C04L.ffSliceBin :=
+  C04L.forward_failures
 
 /-! ### non-vacuity -/
 
